@@ -1,7 +1,7 @@
 (* C07: k-mer counting is exact and independent of threads, chunking and partitioning. *)
 From Coq Require Import NArith ZArith List.
 From KT Require Import Gen.Generated Gen.Alphabet Gen.GeneratedFacts Model.Kmer Model.Ops Model.Rows Model.Pipeline Proof.CountSched Proof.Merge Proof.CountProof.
-From KT Require Import Model.Show Model.Fs Model.CtrFs Proof.CtrFsProof.
+From KT Require Import Model.Show Model.Fs Model.CtrFs Proof.CtrFsProof Proof.CountLive Proof.PassesProof.
 Import ListNotations.
 Open Scope N_scope.
 
@@ -61,6 +61,26 @@ Proof.
   rewrite parse_file_text. exact (C07_counts_table_exact k false n_parts chunks Hk Hn Hb).
 Qed.
 
+(* the hypothesis `fin = true` of the exactness theorem is satisfiable for every input: with one worker the loop
+   reaches the final state within a number of steps linear in the input (and stays there) *)
+Theorem C07_counting_terminates_with_one_worker :
+  forall recs limit n, (cost recs 0 + 2 <= n)%nat -> fin (CountSched.exec recs 1 limit (repeat 0%nat n)) = true.
+Proof. exact single_worker_terminates. Qed.
+
+(* the executable instance run against the real directory by the `ctrfs` / `covfs` cases (one worker, chunk passes
+   of the budget rule, any budget, any partition count, any previous content of the directory): the counts file
+   parses back, sorted, to the specification's table *)
+Theorem C07_file_level_instance_is_exact :
+  forall k limit n_parts dir recs f, (1 <= k <= 31)%nat -> 1 <= n_parts ->
+  Forall (Forall (fun b => 4 <= b < 256)) recs ->
+  exists f' content, ctr_fs n_parts dir (passes k limit recs) f = Some f' /\
+    fs_read (counts_name dir) f' = Some content /\
+    join comma (map (show_count false k) (sort_pairs (parse_file content))) = s_ctr k false recs.
+Proof.
+  intros k limit n_parts dir recs f Hk Hn Hb. apply ctrfs_counts_file_is_spec; [exact Hk|exact Hn|].
+  revert Hb. apply Forall_impl. intros s. apply Forall_impl. intros b Hb. exact (table_ok_spec table_kmer table_kmer_ok b Hb).
+Qed.
+
 (* a temp file's text parses back to the table it was written from *)
 Theorem C07_temp_file_round_trip : forall l, parse_file (file_text l) = l.
 Proof. exact parse_file_text. Qed.
@@ -76,3 +96,5 @@ Print Assumptions C07_every_kmer_has_its_line.
 Print Assumptions C07_counts_table_exact.
 Print Assumptions C07_counts_file_exact_whatever_the_directory_held.
 Print Assumptions C07_temp_file_round_trip.
+Print Assumptions C07_counting_terminates_with_one_worker.
+Print Assumptions C07_file_level_instance_is_exact.
